@@ -26,7 +26,11 @@ def main():
             print("SANY FAILED:", m)
             print(out[-1500:])
     print("setup: %d modules parsed, %d failed" % (len(mods), bad))
-    return 1 if bad else 0
+    if bad:
+        return 1
+    # the oracle must reproduce the official JSON-Schema-Test-Suite before any check is trusted
+    from harness import calibrate
+    return calibrate.main()
 
 
 if __name__ == "__main__":
